@@ -166,6 +166,7 @@ OCT [0-7]
 
 <STRING>"%(" {
   yylval->f->flush_str ();
+  yylval->f->in_string = false;
   BEGIN STRING_EMBEDDED;
 }
 
